@@ -194,3 +194,77 @@ func TestC09_SplitVotes(t *testing.T) {
 		rec.Case("splitvotes:"+c.DescString(), split, labels...)
 	})
 }
+
+// TestC09_OverlappingLists aims at what the application remembers per list element (sender/receiver
+// pairs of evaluations, accused and accuser lists): a keyper of a running key generation sends the same
+// kind of message several times with receiver lists that overlap the earlier ones partly - each later
+// message is refused or acknowledged as a whole, and how far a refused one got before it was refused must
+// not leave traces that depend on anything but the blocks.
+func TestC09_OverlappingLists(t *testing.T) {
+	rec := recorder("C09")
+	rec.AddRule("overlapping lists: 4-5 genesis keypers vote a configuration of 4-5 keypers in; one of its keypers then sends 3-5 evaluation messages (and accusations / apologies) for the running eon whose receiver lists are generated subsets that partly repeat receivers of earlier messages; 8 replicas, same oracle after every call; non-trivial = some message repeats a receiver of an earlier one and names a new one as well")
+	runRapid(t, N(150, 20000), func(rt *rapid.T) {
+		n := rapid.IntRange(4, 5).Draw(rt, "n")
+		g := Genesis{Keypers: rapid.Permutation([]int{0, 1, 2, 3, 4}).Draw(rt, "perm")[:n], Threshold: rapid.IntRange(1, n).Draw(rt, "t"), Validators: []int{10}}
+		c := NewChain(g, 8, func(sig, f string, a ...any) { fatalf(rt, sig, f, a...) })
+		c.CheckReplicas = true
+		var ka []common.Address
+		for _, k := range g.Keypers {
+			ka = append(ka, uni.Addrs[k])
+		}
+		cfg := shmsg.NewBatchConfig(0, ka, uint64(rapid.IntRange(1, n).Draw(rt, "t1")), 1)
+		c.BeginBlock()
+		for k := 0; k < g.Threshold; k++ {
+			c.DeliverTx(uni.MakeTx(g.Keypers[k], apphist.ChainID, c.nextNonce(), cfg), fmt.Sprintf("s%d/cfg", g.Keypers[k]))
+		}
+		c.EndBlock()
+		if c.M.DKGs[c.M.EonCounter] == nil {
+			rt.Fatalf("harness: no key generation started")
+		}
+		eon := c.M.EonCounter
+		s := rapid.SampledFrom(g.Keypers).Draw(rt, "sender")
+		var others []int
+		for _, k := range g.Keypers {
+			if k != s {
+				others = append(others, k)
+			}
+		}
+		seen := map[int]bool{}
+		mixed := false
+		c.BeginBlock()
+		for i, nm := 0, rapid.IntRange(3, 5).Draw(rt, "nmsgs"); i < nm; i++ {
+			sub := rapid.SliceOfNDistinct(rapid.SampledFrom(others), 1, len(others), rapid.ID[int]).Draw(rt, fmt.Sprintf("recv%d", i))
+			old, fresh := false, false
+			for _, r := range sub {
+				old = old || seen[r]
+				fresh = fresh || !seen[r]
+			}
+			mixed = mixed || (old && fresh)
+			raw := addrBytes(sub)
+			evals := make([][]byte, len(raw))
+			for j := range evals {
+				evals[j] = []byte{byte(j + 1)}
+			}
+			var m *shmsg.Message
+			kind := rapid.SampledFrom([]string{"eval", "eval", "eval", "acc", "apol"}).Draw(rt, fmt.Sprintf("kind%d", i))
+			switch kind {
+			case "eval":
+				m = &shmsg.Message{Payload: &shmsg.Message_PolyEval{PolyEval: &shmsg.PolyEval{Eon: eon, Receivers: raw, EncryptedEvals: evals}}}
+				for _, r := range sub {
+					seen[r] = true
+				}
+			case "acc":
+				m = &shmsg.Message{Payload: &shmsg.Message_Accusation{Accusation: &shmsg.Accusation{Eon: eon, Accused: raw}}}
+			default:
+				m = &shmsg.Message{Payload: &shmsg.Message_Apology{Apology: &shmsg.Apology{Eon: eon, Accusers: raw, PolyEvals: evals}}}
+			}
+			c.DeliverTx(uni.MakeTx(s, apphist.ChainID, c.nextNonce(), m), fmt.Sprintf("s%d/%s%v", s, kind, sub))
+			if rapid.IntRange(0, 3).Draw(rt, fmt.Sprintf("endBlock%d", i)) == 0 {
+				c.EndBlock()
+				c.BeginBlock()
+			}
+		}
+		c.EndBlock()
+		rec.Case("overlappinglists:"+c.DescString(), mixed, "overlapping-lists")
+	})
+}
